@@ -88,11 +88,11 @@ func (s *State) evalZSet(c Call, impl Res) (Expect, bool) {
 	switch c.F {
 	case "ZAdd":
 		e := Expect{}
-		if strings.Contains(c.K, "|") || math.IsNaN(c.X) {
+		if strings.Contains(c.K, "|") || math.IsNaN(c.FX()) {
 			e.Err = 2
 		}
 		if ok(impl) {
-			s.zadd(c.B, ZMem{Key: c.K, Score: c.X, Val: c.V})
+			s.zadd(c.B, ZMem{Key: c.K, Score: c.FX(), Val: c.V})
 		}
 		return e, true
 	case "ZRem":
@@ -165,7 +165,7 @@ func (s *State) evalZSet(c Call, impl Res) (Expect, bool) {
 		}
 		return Expect{Val: strconv.Itoa(n - i)}, true
 	case "ZRangeByScore", "ZCount":
-		lo, hi := c.X, c.Y
+		lo, hi := c.FX(), c.FY()
 		xlo, xhi := c.Z != nil && c.Z.ExcludeStart, c.Z != nil && c.Z.ExcludeEnd
 		rev := lo > hi
 		if rev {
